@@ -29,6 +29,18 @@ def cmd_replay(path):
     elif doc.get('engine') == 'detcompile':
         from detcompile import check as D
         return D.replay(doc, path)
+    elif doc.get('engine') == 'sweep08':
+        import subprocess
+        binary = B.build(variant)
+        p = subprocess.run([binary, 'sweep08', '0', '1', '1', doc['db'], str(doc['zone_index'])], stdout=subprocess.PIPE,
+                           stderr=subprocess.PIPE, text=True, timeout=900)
+        print('replay of %s (%s): ordered-pair sweep of zone %s %d' % (path, doc['property'], doc['db'], doc['zone_index']))
+        if 'SWEEP08VIOL' in p.stdout or p.returncode != 0:
+            print('REPRODUCED: ' + doc['message'])
+            print('VIOLATION property=%s replay=%s' % (doc['property'], path))
+            return 1
+        print('not reproduced on the current tree')
+        return 0
     elif doc.get('engine') == 'genm3':
         from . import genm3 as G
         return G.replay(doc, path)
